@@ -44,6 +44,8 @@ Definition rd_rx : rd rx :=
   | 2 => let* c := rd_N in let* n := rd_nat in ret (RxRep c n)
   | 3 => let* pre := rd_str in let* lo := rd_N in let* hi := rd_N in let* suf := rd_str in
          ret (RxGroup pre lo hi suf)
+  | 4 => let* lo := rd_N in let* hi := rd_N in let* l := rd_str in ret (RxNotAfter lo hi l)
+  | 5 => let* l := rd_str in ret (RxBol l)
   | _ => fail
   end.
 
